@@ -415,7 +415,7 @@ if __name__ == '__main__':
                 r['harness'], r['status'], r.get('prep_s', 0), r.get('cbmc_s', 0), st.get('program_steps'),
                 st.get('sat_variables'), ''.join('S' if c['satisfied'] else 'u' for c in r.get('covers', [])),
                 '; '.join('%s@%s' % (f['desc'][:80], f['line']) for f in r.get('failures', [])[:3]) or r.get('detail', '')), flush=True)
-        run_all(hs, rundir, cap, 12, 14, progress=prog, extra=(extra or []) + EXTRA_DEFAULT, recursion=recursion)
+        run_all(hs, rundir, cap, 12, 14, progress=prog, extra=(extra if extra and '--max-field-sensitivity-array-size' in extra else (extra or []) + EXTRA_DEFAULT), recursion=recursion)
     except Inconclusive as e:
         print('INCONCLUSIVE', e)
     finally:
